@@ -685,9 +685,8 @@ impl Gen<'_> {
             if !exact_ok || !self.sim.buckets.contains_key(&b) || self.conflicts(&b, &k) {
                 return None;
             }
-            if !(up.has_meta || !self.sim.metafile.contains(&dst)) || self.sim.cksfile.contains(&dst) {
-                return None;
-            }
+            // (since cf67827 a complete replaces the side files of the object it replaces: a clean history may complete
+            // over an object that has metadata or recorded checksums)
             // a single small part unless the parts are big enough
             pl = format!("+{}", run.iter().map(|(n, _)| n.to_string()).collect::<Vec<_>>().join(","));
             good = up.owner == w;
@@ -727,8 +726,11 @@ impl Gen<'_> {
                         objs.insert(k.clone(), run.iter().map(|(_, l)| *l).sum());
                         self.sim.maybe.insert(dst.clone());
                         if self.sim.ups[i].has_meta {
-                            self.sim.metafile.insert(dst);
+                            self.sim.metafile.insert(dst.clone());
+                        } else {
+                            self.sim.metafile.remove(&dst);
                         }
+                        self.sim.cksfile.remove(&dst);
                     }
                 }
             }
@@ -797,6 +799,7 @@ impl Gen<'_> {
         self.sim.buckets.get_mut(&b).unwrap().insert(k.clone(), total);
         self.sim.maybe.insert((b.clone(), k.clone()));
         self.sim.metafile.insert((b.clone(), k.clone()));
+        self.sim.cksfile.remove(&(b.clone(), k.clone()));
         self.ops.push(format!("get:{w}:{}:{}:-", hs(&b), hs(&k)));
         self.ops.push(format!("get:{w}:{}:{}:i{}-{}", hs(&b), hs(&k), lens[0] - 3, lens[0] + 2));
         self.ops.push(format!("get:{w}:{}:{}:s{}", hs(&b), hs(&k), lens[2] + 2));
